@@ -511,7 +511,7 @@ func parseObjectTransformation(p *parser, t token) (Node, error) {
 		p.consume(typeComma, true)
 		deletes = p.parseExpression(0)
 	}
-	p.consume(typePipe, true)
+	p.consume(typePipe, false)
 
 	return &ObjectTransformationNode{
 		Pattern: pattern,
@@ -1070,7 +1070,7 @@ func parseLambdaDefinition(p *parser, shorthand bool) (Node, error) {
 
 	p.consume(typeBraceOpen, true)
 	body := p.parseExpression(0)
-	p.consume(typeBraceClose, true)
+	p.consume(typeBraceClose, false)
 
 	lambda := &LambdaNode{
 		Body:       body,
